@@ -1595,3 +1595,7 @@ mod tests {
         assert_eq!(compare_byte_view(&a, 3, &b, 3), Ordering::Greater);
     }
 }
+
+#[cfg(kani)]
+#[path = "/verif/kani/arrow-ord/cmp.rs"]
+mod verif_kani;
